@@ -99,6 +99,8 @@ def features(case, vio):
             feats.add("hooks")
         if c.get("tvars"):
             feats.add("generic_class")
+        if c.get("base_args"):
+            feats.add("generic_base")
         if c.get("kind") == "nt":
             feats.add("namedtuple")
         if fam.family_bases(n):
